@@ -55,7 +55,7 @@ def run(ctx):
         text = seq
         if ctx.rng.random() < 0.2:
             # normalisation is part of the API: lower case and whitespace do not count as residues
-            text = "".join((ctx.rng.choice([" ", "\n", "\t"]) if ctx.rng.random() < 0.15 else "") + (c.lower() if ctx.rng.random() < 0.5 else c) for c in seq) + ctx.rng.choice(["", "\n", "  "])
+            text = "".join((ctx.rng.choice([" ", "\n", "\t", "\u00a0", "\u2009", "\u3000"]) if ctx.rng.random() < 0.15 else "") + (c.lower() if ctx.rng.random() < 0.5 else c) for c in seq) + ctx.rng.choice(["", "\n", "  "])
         out = common.call(lambda: lc.SP(text).get_phasePlotRegion())
         ctx.evaluations += 1
         ctx.traces += 1
@@ -65,6 +65,52 @@ def run(ctx):
         byregion[rec["region"]] = byregion.get(rec["region"], 0) + 1
         if 20 * (p + n) == 7 * N and len(ctx.samples) < 3:
             ctx.sample({"p": p, "n": n, "N": N, "region": rec["region"], "note": "FCR = 7/20 boundary"})
+    # beyond the enumerated bound: compositions right next to the thresholds for lengths of one to a few thousand residues
+    from .. import traces
+    trs = []
+    exact_only = list(range(140, 1000, 20))            # every length up to 1000 at which FCR = 7/20 and 1/4 are attainable exactly
+    for N in exact_only + [1000, 1003, 1017, 2000, 2999, 5001][:ctx.pick(5, 6)]:
+        cands = set()
+        if N in exact_only:
+            k = (7 * N) // 20
+            cands = {(k, 0), (k // 2, k - k // 2), (1, k - 1), (N // 4, 0), (k + 3, 3), (3, k + 3)}
+            for p, n in sorted(cands):
+                x = [1] * p + [-1] * n + [0] * (N - p - n)
+                ctx.rng.shuffle(x)
+                seq = common.spell(x, ctx.rng)
+                out = common.call(lambda: lc.SP(seq).get_phasePlotRegion(), limit=120)
+                ctx.evaluations += 1
+                if out[0] != "ok" or not common.is_number(out[1]):
+                    ctx.violation("region", {"p": p, "n": n, "N": N, "seq": seq[:40] + "..."}, expected="1..5", actual=out)
+                    continue
+                trs.append({"tid": len(trs) + 1, "seq": list(seq), "ev": [{"q": "region", "r": common.fx(out[1])}], "pnN": (p, n, N)})
+            continue
+        for t_ in (N // 4, (7 * N) // 20):
+            for d in (-1, 0, 1, 2):
+                k = t_ + d
+                if 0 <= k <= N:
+                    cands.add((k, 0)); cands.add((k // 2, k - k // 2)); cands.add((k - 1, 1) if k >= 1 else (k, 0))
+        for d in (-1, 0, 1, 2):
+            diff = (7 * N) // 20 + d
+            for minority in (1, 100, N // 5):
+                if diff + 2 * minority <= N:
+                    cands.add((diff + minority, minority)); cands.add((minority, diff + minority))
+        for p, n in sorted(cands):
+            x = [1] * p + [-1] * n + [0] * (N - p - n)
+            ctx.rng.shuffle(x)
+            seq = common.spell(x, ctx.rng)
+            out = common.call(lambda: lc.SP(seq).get_phasePlotRegion(), limit=120)
+            ctx.evaluations += 1
+            if out[0] != "ok" or not common.is_number(out[1]):
+                ctx.violation("region", {"p": p, "n": n, "N": N, "seq": seq[:40] + "..."}, expected="1..5", actual=out)
+                continue
+            trs.append({"tid": len(trs) + 1, "seq": list(seq), "ev": [{"q": "region", "r": common.fx(out[1])}], "pnN": (p, n, N)})
+    verdicts, _ = traces.validate(ctx, "Trace_Queries", trs, {"sqrt": [], "ent": []})
+    for tr in trs:
+        ctx.traces += 1
+        if verdicts[tr["tid"]][0] == "reject":
+            p, n, N = tr["pnN"]
+            ctx.violation("region", {"p": p, "n": n, "N": N, "seq": "".join(tr["seq"])[:40] + "..."}, expected="the documented thresholds (TLC)", actual="rejected")
     ctx.extra["cases_per_region"] = {str(k): v for k, v in sorted(byregion.items())}
     ctx.sample({"p": 3, "n": 2, "N": 20, "region": 2})
     ctx.assumptions += ["the region factors through (p, n, N): one random arrangement/spelling per triple",
